@@ -57,6 +57,21 @@ Theorem C40_coherence_invariant :
 Proof. exact run_coherent. Qed.
 Print Assumptions C40_coherence_invariant.
 
+(* idempotent initialisation: whatever was loaded before the concurrent phase is, in the final
+   state of EVERY schedule, still exactly what is on disk (reloads / invalidations / redundant
+   loads by other threads cannot leave a different table or pool behind) *)
+Theorem C40_final_state_schedule_independent :
+  forall e k1 k2 st0 ths sched,
+    coherent e st0 ->
+    (k1 = true -> fonts_loaded e st0) -> (k2 = true -> pool_loaded e st0) ->
+    wf_threads k1 k2 ths ->
+    let stf := fst (run e sched (map init_prog ths) st0) in
+    (fonts_loaded e st0 -> s_once stf = true /\ e_fonts e = Some (s_fonts stf)) /\
+    (pool_loaded e st0 -> s_pool stf = e_pool e /\ e_pool e <> None) /\
+    s_cfg stf = true.
+Proof. exact final_state. Qed.
+Print Assumptions C40_final_state_schedule_independent.
+
 Theorem C40_startup_coherent : forall e, coherent e (fst (step e SDisable init_state)).
 Proof. exact init_coherent. Qed.
 Print Assumptions C40_startup_coherent.
